@@ -1020,6 +1020,49 @@ func genModule2(r *c.Rng) []byte {
 		mod.Codes = append(mod.Codes, c.Code(f.locals, f.body))
 		mod.Exports = append(mod.Exports, c.Export(fmt.Sprintf("f%d", i), 0, uint32(len(g.imps)+i)))
 	}
+	// two "sampler" functions (i64, i64) -> i64 in every other module: each applies EVERY deterministic SIMD operator once
+	// (in its own random order) to vectors made from the parameters and folds the result; operators that keep per-function
+	// backend state (constant pools, mask tables) are thereby used by two functions of one module
+	if r.Bool() {
+		st := g.typeIdx(sig2{[]byte{c.I64, c.I64}, []byte{c.I64}})
+		for k := 0; k < 2; k++ {
+			body := c.Cat(c.LocalGet(0), simd(18), c.LocalSet(2), c.LocalGet(1), simd(18), c.LocalGet(0), simd(18), simd(81), c.LocalSet(3)) // v = splat p0; w = splat p1 xor v
+			type sop struct {
+				kind int
+				op   uint64
+			}
+			var ops []sop
+			for _, o := range simdBin {
+				ops = append(ops, sop{0, o})
+			}
+			for _, o := range simdUn {
+				ops = append(ops, sop{1, o})
+			}
+			for _, o := range simdShift {
+				ops = append(ops, sop{2, o})
+			}
+			for i := len(ops) - 1; i > 0; i-- {
+				j := r.Intn(i + 1)
+				ops[i], ops[j] = ops[j], ops[i]
+			}
+			for _, o := range ops {
+				switch o.kind {
+				case 0:
+					body = c.Cat(body, c.LocalGet(2), c.LocalGet(3), simd(uint32(o.op)))
+				case 1:
+					body = c.Cat(body, c.LocalGet(2), simd(uint32(o.op)))
+				default:
+					body = c.Cat(body, c.LocalGet(2), c.LocalGet(1), []byte{0xa7}, simd(uint32(o.op)))
+				}
+				// keep the bits moving: v = result xor (w rotated into v's place), w = old v
+				body = c.Cat(body, c.LocalGet(3), simd(81), c.LocalGet(2), c.LocalSet(3), c.LocalSet(2))
+			}
+			body = c.Cat(body, c.LocalGet(2), simd(29, 0), c.LocalGet(2), simd(29, 1), []byte{0x85})
+			mod.Funcs = append(mod.Funcs, c.U32(uint32(st)))
+			mod.Codes = append(mod.Codes, c.Code([]byte{c.V128, c.V128}, body))
+			mod.Exports = append(mod.Exports, c.Export(fmt.Sprintf("f%d", nf+k), 0, uint32(len(g.imps)+nf+k)))
+		}
+	}
 	for _, t := range g.tables {
 		mod.Tables = append(mod.Tables, c.Cat([]byte{t.rt, 1}, c.U32(t.min), c.U32(t.max)))
 	}
